@@ -196,6 +196,104 @@ pub fn optvec_single<S: Src>(s: &mut S) {
     std::mem::forget(r);
 }
 
+
+// ---- the other list containers (same GraphQL type [Int!]! / [Int]!): VecDeque, LinkedList,
+// BTreeSet, HashSet share the coercion rules of Vec but each has its own `parse`.
+pub trait SeqLike {
+    fn n(&self) -> usize;
+    fn first_i64(&self) -> Option<i64>;
+}
+impl SeqLike for std::collections::VecDeque<i32> {
+    fn n(&self) -> usize { self.len() }
+    fn first_i64(&self) -> Option<i64> { self.front().map(|v| *v as i64) }
+}
+impl SeqLike for std::collections::LinkedList<i32> {
+    fn n(&self) -> usize { self.len() }
+    fn first_i64(&self) -> Option<i64> { self.front().map(|v| *v as i64) }
+}
+impl SeqLike for std::collections::BTreeSet<i32> {
+    fn n(&self) -> usize { self.len() }
+    fn first_i64(&self) -> Option<i64> { self.first().map(|v| *v as i64) }
+}
+fn seq_absent_null<S: Src, T: InputType>(s: &mut S) {
+    let n = s.u8();
+    cover!(n > 0, "reached");
+    let r = <T as InputType>::parse(None);
+    if r.is_ok() {
+        s.key("null-for-non-null-list-becomes-list-of-null");
+    }
+    assert!(r.is_err(), "omission accepted for a non-null list type");
+    std::mem::forget(r);
+    let r = <T as InputType>::parse(Some(Value::Null));
+    if r.is_ok() {
+        s.key("null-for-non-null-list-becomes-list-of-null");
+    }
+    assert!(r.is_err(), "null accepted for a non-null list type");
+    std::mem::forget(r);
+}
+fn seq_single<S: Src, T: InputType + SeqLike>(s: &mut S) {
+    let n = s.i64();
+    cover!(in_i32(n), "in range");
+    cover!(!in_i32(n), "out of range");
+    let r = <T as InputType>::parse(Some(num(n)));
+    match &r {
+        Ok(v) => assert!(in_i32(n) && v.n() == 1 && v.first_i64() == Some(n), "single value not coerced to [value]"),
+        Err(_) => assert!(!in_i32(n), "an Int in range was rejected"),
+    }
+    std::mem::forget(r);
+}
+fn seq_list0<S: Src, T: InputType + SeqLike>(s: &mut S) {
+    let _ = s.bool();
+    let r = <T as InputType>::parse(Some(Value::List(Vec::new())));
+    cover!(r.is_ok(), "empty list accepted");
+    assert!(matches!(&r, Ok(v) if v.n() == 0), "[] coerces to []");
+    std::mem::forget(r);
+}
+fn seq_wrong_kind<S: Src, T: InputType>(s: &mut S) {
+    let b = s.bool();
+    cover!(b, "true");
+    let r = <T as InputType>::parse(Some(Value::Boolean(b)));
+    assert!(r.is_err(), "a Boolean was accepted as [Int!]! (single-value coercion must still check the item type)");
+    std::mem::forget(r);
+}
+use std::collections::{BTreeSet, HashSet, LinkedList, VecDeque};
+pub fn deque_absent_null<S: Src>(s: &mut S) { seq_absent_null::<S, VecDeque<i32>>(s) }
+pub fn dequeopt_absent_null<S: Src>(s: &mut S) { seq_absent_null::<S, VecDeque<Option<i32>>>(s) }
+pub fn deque_single<S: Src>(s: &mut S) { seq_single::<S, VecDeque<i32>>(s) }
+pub fn deque_list0<S: Src>(s: &mut S) { seq_list0::<S, VecDeque<i32>>(s) }
+pub fn deque_wrong_kind<S: Src>(s: &mut S) { seq_wrong_kind::<S, VecDeque<i32>>(s) }
+pub fn llist_absent_null<S: Src>(s: &mut S) { seq_absent_null::<S, LinkedList<i32>>(s) }
+pub fn llistopt_absent_null<S: Src>(s: &mut S) { seq_absent_null::<S, LinkedList<Option<i32>>>(s) }
+pub fn llist_single<S: Src>(s: &mut S) { seq_single::<S, LinkedList<i32>>(s) }
+pub fn llist_list0<S: Src>(s: &mut S) { seq_list0::<S, LinkedList<i32>>(s) }
+pub fn llist_wrong_kind<S: Src>(s: &mut S) { seq_wrong_kind::<S, LinkedList<i32>>(s) }
+pub fn bset_absent_null<S: Src>(s: &mut S) { seq_absent_null::<S, BTreeSet<i32>>(s) }
+pub fn bsetopt_absent_null<S: Src>(s: &mut S) { seq_absent_null::<S, BTreeSet<Option<i32>>>(s) }
+pub fn bset_single<S: Src>(s: &mut S) { seq_single::<S, BTreeSet<i32>>(s) }
+pub fn bset_list0<S: Src>(s: &mut S) { seq_list0::<S, BTreeSet<i32>>(s) }
+pub fn bset_wrong_kind<S: Src>(s: &mut S) { seq_wrong_kind::<S, BTreeSet<i32>>(s) }
+pub fn hset_absent_null<S: Src>(s: &mut S) { seq_absent_null::<S, HashSet<i32>>(s) }
+pub fn hsetopt_absent_null<S: Src>(s: &mut S) { seq_absent_null::<S, HashSet<Option<i32>>>(s) }
+pub fn vec_wrong_kind<S: Src>(s: &mut S) { seq_wrong_kind::<S, Vec<i32>>(s) }
+
+
+// ---- Box<[T]> / Arc<[T]> (src/types/external/list/slice.rs): the same GraphQL list types
+impl SeqLike for Box<[i32]> {
+    fn n(&self) -> usize { self.len() }
+    fn first_i64(&self) -> Option<i64> { self.first().map(|v| *v as i64) }
+}
+impl SeqLike for std::sync::Arc<[i32]> {
+    fn n(&self) -> usize { self.len() }
+    fn first_i64(&self) -> Option<i64> { self.first().map(|v| *v as i64) }
+}
+pub fn boxslice_absent_null<S: Src>(s: &mut S) { seq_absent_null::<S, Box<[i32]>>(s) }
+pub fn boxsliceopt_absent_null<S: Src>(s: &mut S) { seq_absent_null::<S, Box<[Option<i32>]>>(s) }
+pub fn boxslice_single<S: Src>(s: &mut S) { seq_single::<S, Box<[i32]>>(s) }
+pub fn boxslice_list0<S: Src>(s: &mut S) { seq_list0::<S, Box<[i32]>>(s) }
+pub fn arcslice_absent_null<S: Src>(s: &mut S) { seq_absent_null::<S, std::sync::Arc<[i32]>>(s) }
+pub fn arcsliceopt_absent_null<S: Src>(s: &mut S) { seq_absent_null::<S, std::sync::Arc<[Option<i32>]>>(s) }
+pub fn arcslice_single<S: Src>(s: &mut S) { seq_single::<S, std::sync::Arc<[i32]>>(s) }
+
 macro_rules! c06_harnesses {
     ($($n:ident => $f:ident;)*) => {
         harnesses! {
@@ -223,4 +321,29 @@ c06_harnesses! {
     c06_optvec_absent => optvec_absent;
     c06_optvec_null => optvec_null;
     c06_optvec_single => optvec_single;
+    c06_vec_wrong_kind => vec_wrong_kind;
+    c06_deque_absent_null => deque_absent_null;
+    c06_dequeopt_absent_null => dequeopt_absent_null;
+    c06_deque_single => deque_single;
+    c06_deque_list0 => deque_list0;
+    c06_deque_wrong_kind => deque_wrong_kind;
+    c06_llist_absent_null => llist_absent_null;
+    c06_llistopt_absent_null => llistopt_absent_null;
+    c06_llist_single => llist_single;
+    c06_llist_list0 => llist_list0;
+    c06_llist_wrong_kind => llist_wrong_kind;
+    c06_bset_absent_null => bset_absent_null;
+    c06_bsetopt_absent_null => bsetopt_absent_null;
+    c06_bset_single => bset_single;
+    c06_bset_list0 => bset_list0;
+    c06_bset_wrong_kind => bset_wrong_kind;
+    c06_hset_absent_null => hset_absent_null;
+    c06_hsetopt_absent_null => hsetopt_absent_null;
+    c06_boxslice_absent_null => boxslice_absent_null;
+    c06_boxsliceopt_absent_null => boxsliceopt_absent_null;
+    c06_boxslice_single => boxslice_single;
+    c06_boxslice_list0 => boxslice_list0;
+    c06_arcslice_absent_null => arcslice_absent_null;
+    c06_arcsliceopt_absent_null => arcsliceopt_absent_null;
+    c06_arcslice_single => arcslice_single;
 }
